@@ -627,10 +627,6 @@ Proof.
   - exists m1. split; auto.
 Qed.
 
-(* ---------- subscribers: drain-then-send on a one-slot buffer, under the store's write lock ---------- *)
-Theorem subscriber_never_blocks : forall (buf : chan) c, snd (notify buf c) = false /\ fst (notify buf c) = Some c.
-Proof. intros buf c. unfold notify. split; reflexivity. Qed.
-
 (* non-vacuity: a concrete store satisfying the invariant, with a check-point crossed *)
 Example inv_example :
   let pt := [mkE 1 10 7; mkE 2 5 8] in
